@@ -476,5 +476,22 @@ func EvolveBase() File {
 		{Name: "us", Type: Array(Named("InUnion"))},
 		{Name: "tail", Type: Prim("uint16")},
 	}}
-	return File{Records: []*Record{ev, evEmpty, inStruct, inArray, inMap, inMsg, inUnion, unionHolder}}
+	// one level deeper: records that hold the evolved message are themselves nested
+	outer := &Record{Kind: Struct, Name: "Outer", Fields: []Field{
+		{Name: "s", Type: Named("InStruct")},
+		{Name: "after", Type: Prim("uint32")},
+		{Name: "ss", Type: Array(Named("InStruct"))},
+		{Name: "a", Type: Named("InArray")},
+		{Name: "mid", Type: Prim("uint16")},
+		{Name: "mp", Type: Map("uint8", Named("InMap"))},
+		{Name: "u", Type: Named("HoldsUnion")},
+		{Name: "tail", Type: Prim("string")},
+	}}
+	outerMsg := &Record{Kind: Message, Name: "OuterMsg", Fields: []Field{
+		{Name: "s", Index: 1, Type: Named("InStruct")},
+		{Name: "after", Index: 2, Type: Prim("uint32")},
+		{Name: "o", Index: 3, Type: Named("Outer")},
+		{Name: "tail", Index: 4, Type: Prim("string")},
+	}}
+	return File{Records: []*Record{ev, evEmpty, inStruct, inArray, inMap, inMsg, inUnion, unionHolder, outer, outerMsg}}
 }
